@@ -88,7 +88,11 @@ Print Assumptions C05_grid_oracle_partial.
    States: (Hanan-grid point, direction 0 N / 1 E / 2 S / 3 W).  gstep: a move to the neighbouring grid line in the
    current direction costs the distance and is allowed iff the grid segment does not run through the interior of the
    union of the rectangles (hblocked / vblocked); a turn to a perpendicular direction costs pen and is allowed
-   everywhere except at dst.  gwalk = arbitrary finite walks.  So: the oracle's cost is <= length + pen * bends of
+   everywhere except at dst and at src (noturn src dst; noturn_false: noturn src dst p = false <-> p <> dst /\ p <> src).
+   A state (src, d0) means "leaves src travelling d0" (sd = mask of allowed directions of the first segment), a state
+   (dst, d1) "arrived at dst travelling d1" (ad = mask of allowed travel directions of the last segment: for libavoid
+   ConnDirFlags, which name the SIDE of the endpoint the connector attaches to, the reverse of each flag).
+   gwalk = arbitrary finite walks.  So: the oracle's cost is <= length + pen * bends of
    every orthogonal path ON THAT GRID that avoids the rectangle interiors, for every allowed start / arrival direction.
    Still assumed, not proved (b): HANAN-GRID SUFFICIENCY - some optimal orthogonal obstacle-avoiding path of the plane
    runs on the Hanan grid of the rectangle sides and the endpoints (classical); and (c) as above. *)
@@ -96,7 +100,7 @@ Theorem C05_grid_oracle_optimal rs src dst pen sd ad fuel k p :
   (0 <= pen)%Z ->
   oracle_dirs rs src dst pen sd ad fuel = OR_cost k p ->
   forall d0 d1 C, (0 <= d0 <= 3)%Z -> dir_allowed sd d0 = true -> dir_allowed ad d1 = true ->
-    gwalk rs (hanan_xs rs src dst) (hanan_ys rs src dst) pen dst (src, d0) (dst, d1) C -> (k <= C)%Z.
+    gwalk rs (hanan_xs rs src dst) (hanan_ys rs src dst) pen (noturn src dst) (src, d0) (dst, d1) C -> (k <= C)%Z.
 Proof. exact (fun H => grid_oracle_optimal rs src dst pen sd ad fuel H k p). Qed.
 Print Assumptions C05_grid_oracle_optimal.
 
@@ -104,13 +108,17 @@ Theorem C05_grid_oracle_unreachable rs src dst pen sd ad fuel :
   (0 <= pen)%Z ->
   oracle_dirs rs src dst pen sd ad fuel = OR_unreachable ->
   forall d0 d1 C, (0 <= d0 <= 3)%Z -> dir_allowed sd d0 = true -> dir_allowed ad d1 = true ->
-    ~ gwalk rs (hanan_xs rs src dst) (hanan_ys rs src dst) pen dst (src, d0) (dst, d1) C.
+    ~ gwalk rs (hanan_xs rs src dst) (hanan_ys rs src dst) pen (noturn src dst) (src, d0) (dst, d1) C.
 Proof. exact (grid_oracle_unreachable rs src dst pen sd ad fuel). Qed.
 Print Assumptions C05_grid_oracle_unreachable.
+
+Theorem C05_noturn_false src dst p : noturn src dst p = false <-> p <> dst /\ p <> src.
+Proof. exact (noturn_false src dst p). Qed.
+Print Assumptions C05_noturn_false.
 
 Theorem C05_grid_oracle_optimal_plain rs src dst pen fuel k p :
   (0 <= pen)%Z -> oracle rs src dst pen fuel = OR_cost k p ->
   forall d0 d1 C, (0 <= d0 <= 3)%Z -> (0 <= d1 <= 3)%Z ->
-    gwalk rs (hanan_xs rs src dst) (hanan_ys rs src dst) pen dst (src, d0) (dst, d1) C -> (k <= C)%Z.
+    gwalk rs (hanan_xs rs src dst) (hanan_ys rs src dst) pen (noturn src dst) (src, d0) (dst, d1) C -> (k <= C)%Z.
 Proof. exact (grid_oracle_optimal_plain rs src dst pen fuel k p). Qed.
 Print Assumptions C05_grid_oracle_optimal_plain.
